@@ -15,8 +15,8 @@ static const uint64_t QS[4] = {Q1, Q2, Q3, Q4};
 static const uint64_t L = 10000;
 
 // operand families
-enum Fam { F_CANON, F_LAZY, F_ALLMAX, F_ALT, F_SINGLE, F_ZERO, NFAM };
-static const char* FN[] = {"seeded-canonical", "seeded-noncanonical", "all-maximal", "alternating-max-min", "single-maximal", "all-zero"};
+enum Fam { F_CANON, F_LAZY, F_HIGH, F_LOW, F_ALLMAX, F_ALT, F_SINGLE, F_ZERO, NFAM };  // F_HIGH / F_LOW: only the high / only the low half of every word is non-zero
+static const char* FN[] = {"seeded-canonical", "seeded-noncanonical", "seeded-high-halves-only", "seeded-low-halves-only", "all-maximal", "alternating-max-min", "single-maximal", "all-zero"};
 
 // layout a: 4 uint64 lanes < 2^32;  b: 4 uint64 lanes any;  c: 8 uint32 words
 static void fill_a(uint64_t* p, uint64_t n, int fam, Rng& r) {
@@ -25,6 +25,8 @@ static void fill_a(uint64_t* p, uint64_t n, int fam, Rng& r) {
     switch (fam) {
       case F_CANON: v = r.next() % QS[k]; break;
       case F_LAZY: v = r.next() & 0xFFFFFFFFull; break;
+      case F_HIGH: v = r.next() & 0xFFFF0000ull; break;
+      case F_LOW: v = r.next() & 0x0000FFFFull; break;
       case F_ALLMAX: v = 0xFFFFFFFFull; break;
       case F_ALT: v = (i & 1) ? 0 : 0xFFFFFFFFull; break;
       case F_SINGLE: v = (i == n / 2) ? 0xFFFFFFFFull : 0; break;
@@ -39,6 +41,8 @@ static void fill_b(uint64_t* p, uint64_t n, int fam, Rng& r) {
     switch (fam) {
       case F_CANON: v = r.next() % QS[k]; break;
       case F_LAZY: v = r.next(); break;
+      case F_HIGH: v = r.next() & 0xFFFFFFFF00000000ull; break;
+      case F_LOW: v = r.next() & 0x00000000FFFFFFFFull; break;
       case F_ALLMAX: v = ~0ull; break;
       case F_ALT: v = (i & 1) ? 0 : ~0ull; break;
       case F_SINGLE: v = (i == n / 2) ? ~0ull : 0; break;
@@ -53,6 +57,8 @@ static void fill_c(uint32_t* p, uint64_t n, int fam, Rng& r) {
     switch (fam) {
       case F_CANON: { uint64_t y = r.next() % QS[k]; y0 = (uint32_t)y; y1 = (uint32_t)((y << 32) % QS[k]); break; }
       case F_LAZY: y0 = (uint32_t)r.next(); y1 = (uint32_t)r.next(); break;  // arbitrary words: defined value x_lo*y0 + x_hi*y1
+      case F_HIGH: y0 = 0; y1 = (uint32_t)r.next(); break;
+      case F_LOW: y0 = (uint32_t)r.next(); y1 = 0; break;
       case F_ALLMAX: y0 = y1 = ~0u; break;
       case F_ALT: y0 = y1 = (i & 1) ? 0 : ~0u; break;
       case F_SINGLE: y0 = y1 = (i == n / 2) ? ~0u : 0; break;
@@ -298,10 +304,41 @@ static void run_conversions(Ctx& ctx) {
   }
 }
 
+static void run_residue_sweep(Ctx& ctx, uint64_t part) {
+  // EVERY residue: r = 0 .. 2^30-1 (all four primes are below 2^30) through both conversions into the c layout, in the canonical
+  // form and as the largest 64-bit / int64 representative: lane 0 must be r mod q and lane 1 (r * 2^32) mod q
+  {
+    std::string id = sfmt("conversion|q120_c_from_b_simple + q120_c_from_znx64_simple|every residue|r in [%llu * 2^24, %llu * 2^24)", (unsigned long long)part, (unsigned long long)(part + 1));
+    if (!ctx.want(id)) return;
+    ctx.begin_case(id);
+    const uint64_t CH = 1u << 12;
+    GBuf b(CH * 32, 8), zi(CH * 8, 16), c1(CH * 32, 24), c2(CH * 32, 8);
+    bool bad = false;
+    for (uint64_t r0 = part << 24; r0 < ((part + 1) << 24) && !bad; r0 += CH) {
+      for (uint64_t i = 0; i < CH; ++i) {
+        const uint64_t r = r0 + i;
+        for (int k = 0; k < 4; ++k) b.as<uint64_t>()[4 * i + k] = (i & 1) ? r + QS[k] * ((~0ull - r) / QS[k]) : r;  // odd positions: the largest representative below 2^64
+        zi.as<int64_t>()[i] = (i & 2) ? (int64_t)r - (int64_t)(1ull << 62) : (int64_t)r;                         // a negative representative for half of them
+      }
+      q120_c_from_b_simple(CH, (q120c*)c1.p, (q120b*)b.p);
+      q120_c_from_znx64_simple(CH, (q120c*)c2.p, zi.as<int64_t>());
+      for (uint64_t i = 0; i < CH && !bad; ++i) for (int k = 0; k < 4; ++k) {
+        const uint64_t q = QS[k], rb = b.as<uint64_t>()[4 * i + k] % q, rz = smod(zi.as<int64_t>()[i], q);
+        const uint32_t* w1 = c1.as<uint32_t>() + 8 * i + 2 * k; const uint32_t* w2 = c2.as<uint32_t>() + 8 * i + 2 * k;
+        if (w1[0] % q != rb || w1[1] % q != (rb << 32) % q) { ctx.violation(id, sfmt("c_from_b: lane value %llu (prime %d) gives (%u, %u), expected (%llu, %llu) mod q", (unsigned long long)b.as<uint64_t>()[4 * i + k], k, w1[0], w1[1], (unsigned long long)rb, (unsigned long long)((rb << 32) % q))); bad = true; break; }
+        if (w2[0] % q != rz || w2[1] % q != (rz << 32) % q) { ctx.violation(id, sfmt("c_from_znx64: %lld (prime %d) gives (%u, %u), expected (%llu, %llu) mod q", (long long)zi.as<int64_t>()[i], k, w2[0], w2[1], (unsigned long long)rz, (unsigned long long)((rz << 32) % q))); bad = true; break; }
+      }
+    }
+    if (!b.guards_ok() || !c1.guards_ok() || !c2.guards_ok() || !zi.guards_ok()) ctx.violation(id, "write outside a declared extent");
+    ctx.metric_add(1, 1u << 24);
+    ctx.end_case(true);
+  }
+}
+
 int main(int argc, char** argv) {
   Args args = parse_args("C10", argc, argv, 300, 1800);
   Ctx ctx(args);
-  ctx.name_metric(0, "ell_values_checked");
+  ctx.name_metric(0, "ell_values_checked"); ctx.name_metric(1, "residues_swept");
   static q120_mat1col_product_baa_precomp* paa = q120_new_vec_mat1col_product_baa_precomp();
   static q120_mat1col_product_bbb_precomp* pbb = q120_new_vec_mat1col_product_bbb_precomp();
   static q120_mat1col_product_bbc_precomp* pbc = q120_new_vec_mat1col_product_bbc_precomp();
@@ -324,6 +361,7 @@ int main(int argc, char** argv) {
     c.args.seed = save;
   }, "products");
   ctx.parallel(1, [&](uint64_t) { run_conversions(ctx); }, "conversions");
+  ctx.parallel(64, [&](uint64_t part) { run_residue_sweep(ctx, part); }, "c-layout conversions on every residue");
   ctx.assumptions = {"default 30-bit prime set", "c-layout operands that are not canonical pairs are judged against the defined value x_lo*y0 + x_hi*y1",
                      "ell in [0, 10000] (MAX_ELL)"};
   return ctx.finish("exploration",
